@@ -41,18 +41,38 @@ class Other(object):
         self.z = 1
 
 
+class EqBean(object):
+    """An unsupported value whose __eq__ compares attributes without a type guard (comparing it with a string raises AttributeError)."""
+
+    __slots__ = ()  # not a bean the translator can dump field by field... it has no fields at all
+
+    def __eq__(self, other):
+        return self.missing_attribute == other.missing_attribute
+
+    __hash__ = None
+
+
+class _EqUnsupported(complex):
+    """A value of an unsupported type (a complex number) whose __eq__ cannot be applied to strings."""
+
+    def __eq__(self, other):
+        return self.real == other.real and self.tag == other.tag
+
+    __hash__ = None
+
+
 def gen_func():
     yield 1
 
 
-UNSUPPORTED = ["object", "function", "complex", "generator", "date", "bean", "fraction", "range", "class", "module", "memoryview", "ellipsis"]
+UNSUPPORTED = ["object", "function", "complex", "generator", "date", "bean", "fraction", "range", "class", "module", "memoryview", "ellipsis", "complex-eq"]
 
 
 def unsupported_value(kind):
     import fractions
     return {"object": object(), "function": gen_func, "complex": 1 + 2j, "generator": gen_func(), "date": datetime.date(2020, 1, 2),
             "bean": beans.Plain(), "fraction": fractions.Fraction(1, 3), "range": range(3), "class": Other, "module": fractions,
-            "memoryview": memoryview(b"ab"), "ellipsis": Ellipsis}[kind]
+            "memoryview": memoryview(b"ab"), "ellipsis": Ellipsis, "complex-eq": _EqUnsupported()}[kind]
 
 
 HANDLER_TABLES = ["none", "user", "date", "tuple", "str", "bool", "user+date", "other", "list", "dict", "int", "mylist", "float",
@@ -353,6 +373,10 @@ def cases(tier):
             for table in ("none", "date", "user"):
                 for ctx in ("top", "list", "bean-dict"):
                     yield (si, (), (), table, ctx, "defaults", unsup)
+            # the same next to non-empty ignore lists (per object, per call, both)
+            for ign_obj, ign_call in (((n - 1,), ()), ((), (n - 1,)), ((n - 1,), (n - 1,))):
+                yield (si, ign_obj, ign_call, "none", "top", "defaults", unsup)
+                yield (si, ign_obj, ign_call, "none", "bean-list", "defaults", unsup)
         for table in ("none", "list", "dict", "int", "mylist", "tuple", "str"):
             for ctx in CONTEXTS:
                 yield (si, (), (), table, ctx, "defaults", "subtypes")
